@@ -47,7 +47,7 @@ MAP = {
     "C17_m3": [("C17", "cmd.SFC_GET_BROADCAST_INFO")], "C17_m4": [("C17", "cmd.SFC_GET_LOG_INFO")],
     "C18_m3": [("C18", ".fixed")], "C18_m4": [("C18", "calc.")],
     "C19_m3": [("C19", None)], "C19_m4": [("C19", None)],
-    "C20_m3": [("C20", None)], "C20_m4": [("C20", "ieee.double64.read")],
+    "C20_m3": [("C20", "g711fd")], "C20_m4": [("C20", "ieee.double64.read")],
     "R_g711_intmin": [("C20", "g711.H_ENCODE_I")], "R_d2sc_clip": [("C02", "sc.WR_D.norm1.clip1")], "R_cmdstr0": [("C17", "cmd.SFC_GET_LIB_VERSION")],
     "R_embedshort": [("C14", "embed_open.au.k4,embed_open.au.k1.")], "R_peak_double": [("C18", "peak.double64.double.ch1")], "R_sds_close": [("C01", "blk.sds16.flush.k10")],
     "R_htk_sr0": [("C10", "open_sr.htk")],
